@@ -6,7 +6,7 @@
    check runs (vm_compute) on the arrays handed to the Rust function. *)
 From Coq Require Import Reals NArith QArith Lra List.
 From SpdVerif Require Import Model.FinSum Model.Hom Model.Schmidt Proofs.FinSum_lemmas Proofs.RMat Proofs.C11_len Proofs.C11_trace
-  Proofs.C11_families Proofs.C11_svd Proofs.C11_exec Gen.SchmidtSrc Proofs.C11_src.
+  Proofs.C11_families Proofs.C11_svd Proofs.C11_exec Gen.SchmidtSrc Proofs.C11_src Proofs.C11_rounding.
 Local Open Scope R_scope.
 
 (* the length check accepts exactly the perfect squares (every usize) *)
@@ -130,6 +130,17 @@ Theorem C11_exec_twin : forall n mags,
   Q2R (trG2_Q n mags) = trG2 ROps n (mat_of n (Rmags mags)).
 Proof. exact exec_twin_correct. Qed.
 
+(* rounding of the arithmetic AFTER the SVD (binary64 round-to-nearest, any tie rule): for non-negative singular values, sides up
+   to 40, the returned fl(fl(N^ N^)/D^) with N^ = sum fl(s^2), D^ = sum fl(fl(s^2) fl(s^2)) (rounded left-to-right additions)
+   is within 1e-13 relative of (sum s^2)^2 / sum s^4.
+   PARTIAL: exponent range unbounded (FLX: no under/overflow — cf. the NaN notes at scales 1e-100 / 1e80), summation order
+   left to right, powi(4) as the square of the square; the accuracy of the singular values themselves remains the oracle contract. *)
+Theorem C11_rounding_partial : forall (choice : Z -> bool) n sv,
+  (n <= 40)%nat -> (forall k, 0 <= sv k) -> 0 < sv_kinv n sv ->
+  let K := sv_norm_squared n sv * sv_norm_squared n sv / sv_kinv n sv in
+  Rabs (Khat (b64_rnd choice) n sv - K) <= 1e-13 * K.
+Proof. exact schmidt_rounding_b64. Qed.
+
 (* ---- non-vacuity *)
 Example C11_nonvacuous_nonzero : nonzero_matrix 2 (outer (fun _ => 1) (fun _ => 2)).
 Proof. exists 0%nat, 0%nat. unfold outer. repeat split; auto; lra. Qed.
@@ -168,4 +179,5 @@ Print Assumptions C11_phases.
 Print Assumptions C11_moduli_only.
 Print Assumptions C11_transpose.
 Print Assumptions C11_transpose_matrix.
+Print Assumptions C11_rounding_partial.
 Print Assumptions C11_exec_twin.
